@@ -80,8 +80,8 @@ def orthogonal_patterns(draw, n_bits, max_entries):
 
 
 @st.composite
-def table(draw, max_active=6, max_entries=40, kind=None):
-    ks = draw(keyspace(max_active))
+def table(draw, max_active=6, max_entries=40, kind=None, ks=None):
+    ks = dict(ks) if ks is not None else draw(keyspace(max_active))
     n = len(ks["bits"])
     kind = kind or draw(st.sampled_from(["orthogonal", "generality", "free"]))
     routes = draw(st.lists(route_strategy(), min_size=1, max_size=4))
